@@ -189,6 +189,11 @@ def run(ctx):
                               'reference_regexes': {k: v[0] for k, v in REF.items()}}
     from . import shared as S
     S.r01_5_scalar(ctx)
+    # "what a scalar resolves to always agrees with what is then constructed": recognition does not retag nodes, and the
+    # constructors of the core tags are PyYAML's own (yatiml registers constructors for its '!' tags only)
+    from . import helpers_rules as H
+    H.r16_1_purity(ctx, 'R09.8', roots=['yatiml.recognizer:Recognizer.recognize'], what='recognition (a key or value is not retagged while it is being judged)')
+    S.r04_3_registrations(ctx)
     if ctx.tier == 'thorough':
         ctx.extra['dfa_selftest'] = dfa_selftest(M)
 
